@@ -19,6 +19,17 @@ CLAIMS = {
         "spence(z) = Li2(1-z); eko.constants read from installed source. Kernel variable assumed in (0,1).",
         "DESIGN.md section 3, C03",
     ),
+    "C07": (
+        "normal-form identities between partially evaluated operators (additivity over parts, heavyness, coupling restrictions)",
+        "Decides additivity as polynomial identities between partially evaluated operators, for every order key (scale-variation keys "
+        "included), parton row and basis node, with weights, masses, kinematics and convolution values symbolic: FONLLParts full == massless + "
+        "massive; FFNS/FFN0 total == light + the heavy quarks massive in that scheme; ZM-VFNS total == light; EM/NC unrestricted == sum of the "
+        "six NCPositivityCharge restrictions (and == 'all'). NOT decided: numerical values; the literal 'light+charm+bottom+top' when NfFF >= 4 "
+        "(documented double counting of the then-active charm) is outside the decided clause.",
+        "Trusted: CPython ast; yadsa partial evaluator with quadrature/eko/LeProHQ opaque; generic-point folding of symbolic weights; heavy "
+        "coefficient functions folded above threshold.",
+        "DESIGN.md section 3, C07",
+    ),
     "C12": (
         "normal-form identity between partially evaluated operators (symbolic target vs rotated proton); ownership/aliasing rule; table folding",
         "Decides: for every cell of a lattice (kinds x heavyness x NC/CC x ZM-VFNS/FFNS/FFN0/FONLL-* x orders, with and without scale "
